@@ -24,7 +24,9 @@ MANIFEST = {
             "(site x corruption class x key type x version); direct oracle from the property text on the same runs.",
     "note": "Trusted: Lean kernel, the harness, python-ecdsa/hashlib as used by the independent signer; unforgeability and collision "
             "resistance are named bad events, not proved. Certificate path validation is not a tlslite feature. SSLv3, ML-DSA, "
-            "TACK and session-ticket resumption (C13) are not modelled here.",
+            "TACK and TLS<=1.2 session-ticket / session-ID resumption (C13) are not modelled here; TLS 1.3 tickets are modelled as PSK "
+            "identities (pskSelectT / hsServer13T: the chain stored in a ticket is attributed only if that ticket was selected and its "
+            "resumption binder verified).",
     "technique": "Lean 4 proofs over a code-mirroring model; differential correspondence with live faulty peers; property oracle",
 }
 
@@ -251,7 +253,7 @@ def run(ctx):
                 "Finished equations); Checker mismatch => call fails, connection closed")
     ctx.assumptions = ["signature unforgeability and hash collision resistance are named bad events in the theorems",
                        "python-ecdsa / hashlib are used by the independent signer of the faulty peer",
-                       "SSLv3, ML-DSA, TACK, session tickets are outside this check"]
+                       "SSLv3, ML-DSA, TACK, TLS<=1.2 ticket/session-ID resumption are outside this check"]
     stream_sighashes(ctx)
     pending = []
     cases = PL.plan_signature_cases(thorough)
